@@ -309,8 +309,7 @@ Fixpoint replay_loop (rows : list frame) (gfb gfe : Z) : M (Z * Z) :=
         (* numbers missing in the journal before this message are gap filled too (repair of D21) *)
         let gfe' := if gfb <? f_seq r then f_seq r else gfe in
         (if gfb <? gfe' then send_msg (mkF TSeqReset gfb false gfe' 1) else ret tt) ;;;
-        (* replay_msg[PossDupFlag] = "Y" on a journaled PossDup copy: DuplicatedTagError *)
-        (if f_pd r then raise XDupTag else ret tt) ;;;
+        (* replay_msg.set(PossDupFlag, "Y", replace=True): a row that already carries tag 43 is replayed all the same *)
         send_msg (mkF (f_type r) (f_seq r) true (f_a r) (f_b r)) ;;;
         replay_loop rows' (f_seq r + 1) gfe'
   end.
@@ -321,7 +320,7 @@ Definition process_resend (f : frame) : M unit :=
   (if cstate_eqb (st w) Awaiting then ret tt else set_st Handling) ;;;
   (* invalid request (BeginSeqNo < 1): answer from the first message *)
   let b := if f_a f <? 1 then 1 else f_a f in
-  let e := if f_b f =? 0 then MAXSIZE else f_b f in
+  let e := if (f_b f =? 0) || (MAXSIZE <? f_b f) then MAXSIZE else f_b f in
   w <- get ;;
   let rows := recover_out (jt w) b e in
   let current := nout w in
